@@ -197,9 +197,10 @@ theorem wrapPositional_writev_eq_pwrite {s : State} {fd : Int} {ino pos : Nat} {
   have hTfds : (s.setOfd fd.toNat (some ⟨.file ino, off, acc, flags⟩)).fds
       = s.fds.set fd.toNat (some ⟨.file ino, off, acc, flags⟩) := rfl
   have hTdirs : (s.setOfd fd.toNat (some ⟨.file ino, off, acc, flags⟩)).dirs = s.dirs := rfl
+  have hTpipes : (s.setOfd fd.toNat (some ⟨.file ino, off, acc, flags⟩)).pipes = s.pipes := rfl
   have hback : ∀ x : Option OFD, (s.setOfd fd.toNat x).setOfd fd.toNat (some ⟨.file ino, pos, acc, flags⟩) = s := by
     intro x; rw [setOfd_setOfd, h.setOfd_self]
-  generalize hT : s.setOfd fd.toNat (some ⟨.file ino, off, acc, flags⟩) = T at h2 hTm hTfs hTfds hTdirs
+  generalize hT : s.setOfd fd.toNat (some ⟨.file ino, off, acc, flags⟩) = T at h2 hTm hTfs hTfds hTdirs hTpipes
   rw [write_file h2]
   have hposT : pos ≤ T.maxBytes := by rw [hTm]; exact h.posOk
   cases hw : acc.canWrite
@@ -223,7 +224,7 @@ theorem wrapPositional_writev_eq_pwrite {s : State} {fd : Int} {ino pos : Nat} {
         have hinoT : ino < T.fs.files.length := by rw [hTfs]; exact hino
         have h3 : IsFile
             (({ fs := T.fs.setFile ino (f.write (landing flags f off) (clip s.maxBytes (landing flags f off) bufs.flatten)),
-                fds := T.fds, dirs := T.dirs, maxBytes := s.maxBytes } : State).setOfd
+                fds := T.fds, dirs := T.dirs, maxBytes := s.maxBytes, pipes := T.pipes } : State).setOfd
               fd.toNat (some ⟨.file ino, landing flags f off + (clip s.maxBytes (landing flags f off) bufs.flatten).length, acc, flags⟩))
             fd ino (landing flags f off + (clip s.maxBytes (landing flags f off) bufs.flatten).length) acc flags
             (f.write (landing flags f off) (clip s.maxBytes (landing flags f off) bufs.flatten)) := by
@@ -232,7 +233,7 @@ theorem wrapPositional_writev_eq_pwrite {s : State} {fd : Int} {ino pos : Nat} {
           · simp [State.setOfd, FS.setFile, List.getElem?_set_self hinoT]
         rw [lseek_set h3 pos h.posOk, setOfd_setOfd]
         -- restoring the position gives back the original description
-        simp only [State.setOfd, hTfds, hTfs, hTdirs, hTm, List.set_set]
+        simp only [State.setOfd, hTfds, hTfs, hTdirs, hTpipes, hTm, List.set_set]
         rw [set_self_of_getElem? _ _ _ h.ofd]
 
 /-- the zero-length case of `readv`: also equal to `pread` of 0 bytes -/
@@ -259,29 +260,10 @@ theorem wrapPositional_readv_zero {s : State} {fd : Int} {ino pos : Nat} {acc : 
 /-- `pread` never changes the host state; `pwrite` never changes the descriptor table -/
 theorem pread_state (s : State) (fd : Int) (n : Nat) (off : Int) : (s.pread fd n off).1 = s := by
   unfold State.pread
-  split
-  · rfl
-  · split
-    · rfl
-    · split
-      · rfl
-      · split
-        · rfl
-        · split <;> rfl
+  repeat' split
+  all_goals rfl
 
 theorem pwrite_fds (s : State) (fd : Int) (bs : Bytes) (off : Int) : (s.pwrite fd bs off).1.fds = s.fds := by
   unfold State.pwrite
-  split
-  · rfl
-  · split
-    · rfl
-    · split
-      · rfl
-      · split
-        · rfl
-        · split
-          · rfl
-          · split
-            · rfl
-            · simp only
-              split <;> split <;> rfl
+  repeat' split
+  all_goals first | rfl | (simp only; split <;> rfl)
